@@ -193,7 +193,7 @@ prop(
     theorems=["C09_entry_roundtrip", "C09_key_recovered", "C09_page_and_partial_key_identify", "C09_growth_preserves_reads", "Slots.C09_slot_index_lookup_is_spec"],
     counts={"quick": 320, "thorough": 12000, "search": 1600},
     rule="(c09s, slot level) 66-100 uniform keys under the zero salt aimed at one or two index pages (a sixth sharing the first 8 bytes with another key; in 'deep' "
-         "mode 130-150 keys that also share bit 17, so that three index generations coexist), 100-270 operations, each its own drained transaction: set (new key, same size "
+         "mode 130-150 keys that also share bit 17, so that three index generations coexist), 100-270 operations in drained transactions of one change (a third: 2-5 changes of different keys; the files are compared after the transaction, the model takes the changes one by one in the order the code applies them): set (new key, same size "
          "tier, other size tier), remove, one reindex batch, drop + reopen; after EVERY operation every non-empty slot of the keys' pages in every index file is read raw "
          "(slot number, the 50 key bits the entry lets one recover, address) and compared with the generations the model's istep predicts; the address a value was put at "
          "is read back from the files and given to the model (the allocator is C14's subject); every key is read through the API as well. "
@@ -257,11 +257,11 @@ MT_RULE = ("multitree histories: column 0 multitree (plain / counted / append-on
            "EXISTING children of the first (a few hundred reference counters change in one log record), drained, optionally reopened, optionally the sharer dereferenced")
 prop(
     id="C10", module="Properties.C10", vfile="Properties/C10.v", level="proof", subcmd="c10", beyond_known=True,
-    theorems=["C10_node_pack_roundtrip", "C10_unrepresentable_rejected", "C10_insert_reads_back_after_commit", "C10_insert_reads_back_after_processing", "C10_shared_node_survives_dereference", "C10_unshared_leaf_is_reclaimed"],
+    theorems=["C10_node_pack_roundtrip", "C10_unrepresentable_rejected", "C10_insert_reads_back_after_commit", "C10_insert_reads_back_after_processing", "C10_shared_node_survives_dereference", "C10_unshared_leaf_is_reclaimed", "C10_invalid_operation_rejects_without_trace"],
     counts={"quick": 1600, "thorough": 60000, "search": 6400},
     rule=MT_RULE,
     assumptions=["node identities are abstract in the model (the code's addresses): observations are compared after canonical renumbering, existing children are named by paths",
-                 "the slot allocator (claim_entries) is not modelled; its effects are visible only through the entry count, see known finding F7"],
+                 "the slot allocator (claim_entries) is not modelled; its effects are visible only through the entry count (that is how F7, now repaired, was seen)"],
     explanation="multitree model with abstract node identities, commit-time preparation, counted sharing, recursive dereference; node packing proved; tie by full traversals after every step",
 )
 prop(
@@ -282,7 +282,7 @@ prop(
               "Mut.C04_set_keeps_tree", "Mut.C04_sets_keep_tree", "Mut.C04_spec_ins_is_set_insertion",
               "Mut.C04_mutations_keep_tree", "Mut.C04_remove_keeps_tree", "Mut.C04_spec_del_is_set_removal"],
     counts={"quick": 1600, "thorough": 60000, "search": 8000},
-    rule="(c04m, tree shape) 30-200 short keys, 40-260 operations, each its own drained transaction, in three phases (grow - ascending, descending or random -, churn, shrink; "
+    rule="(c04m, tree shape) 30-200 short keys, 40-260 operations in drained transactions of one change (a third: 2-6 changes of different keys, committed in shuffled order and applied by the code in key order - the files are compared after the transaction), in three phases (grow - ascending, descending or random -, churn, shrink; "
          "removals prefer the smallest / largest / a random live key): after EVERY operation the tree is read from the raw files and compared, node for node, with the tree the "
          "model's bstep builds (where a key goes, median splits, the predecessor that replaces a removed separator, borrowing from the left / right sibling, merges, the root "
          "gaining and losing levels); every key is point-read as well. (c04) histories on a btree column (plus an optional second column): 5-14 keys incl. the empty key, keys of 254/255/256 bytes (length-encoding boundary) "
@@ -292,7 +292,7 @@ prop(
          "ordered map of accepted writes. (c04t) 20-160 keys, 3-30 transactions of 1-40 operations with removals dominating late (splits, merges, root growth and "
          "shrink); after the drain the tree is read from the RAW files by the harness's parser and judged by the extracted proved checker; its in-order key list must "
          "equal the live keys. Non-trivial: a history that touches a key while an earlier touch is not yet enacted (c04), a tree of depth >= 1 (c04t)",
-    assumptions=["tree mutation: proved for one change at a time (any sequence of sets and removals); the batched descent of Node::change over several sorted changes of one transaction is exercised by c04 / c04t and judged by the proved checker on raw dumps only; values and reference counts of btree entries are not part of the mutation model (a removal is a removal that takes the key out)",
+    assumptions=["tree mutation: proved for one change at a time (any sequence of sets and removals); the batched descent of Node::change over several sorted changes of one transaction is tied to the one-at-a-time model by c04m (a third of its transactions carry 2-6 changes; the resulting tree must equal the tree the model builds change by change in key order) and judged by the proved checker on raw dumps in c04 / c04t; values and reference counts of btree entries are not part of the mutation model (a removal is a removal that takes the key out)",
                  "the merge of the tree cursor with a NON-EMPTY commit overlay is tied by correspondence and by the oracle, not proved (the proved sequence theorem is for an empty overlay with arbitrarily changing tree content)",
                  "the tree cursor over nodes is abstracted to a cursor over the sorted entry list; that abstraction is what the correspondence validates"],
     explanation="iterator modelled as tree-cursor + commit-overlay merge exactly as iter_inner does it (pending item, last key, re-seek on change); proved checker for raw tree dumps",
@@ -372,10 +372,10 @@ prop(
     id="C14", module="Properties.C14", vfile="Properties/C14.v", level="proof", subcmd="c14",
     subcmds=[("c14", {"quick": 640, "thorough": 40000, "search": 3200}), ("c14a", {"quick": 640, "thorough": 40000, "search": 3200})],
     theorems=["C14_accepted_table_is_partitioned", "C14_no_slot_twice", "C14_no_slot_leaked", "C14_checked_table_satisfies_invariant", "C14_alloc_pops_free_list", "C14_alloc_extends_only_when_list_empty", "C14_free_pushes_on_free_list",
-              "C14_store_keeps_partition", "C14_remove_keeps_partition", "C14_reachable_tables_partitioned"],
+              "C14_store_keeps_partition", "C14_remove_keeps_partition", "C14_replace_keeps_partition", "C14_reachable_tables_partitioned"],
     counts={"quick": 640, "thorough": 40000, "search": 3200},
     rule="(c14a, allocator correspondence) 6-30 operations on ONE value table - a fixed size tier (values of exactly the tier's capacity) or the multi-part table (values of 9-14 slots) - each "
-         "its own transaction, drained: store a value / remove the j-th live value; after every operation the raw table file is classified slot by slot and compared with the table the model's "
+         "its own transaction, drained: store a value / remove the j-th live value / replace the j-th live value by one of another length (the chain is reused, extended from the free list or cut, ValueTable::overwrite_chain); after every operation the raw table file is classified slot by slot and compared with the table the model's "
          "astep predicts (which slot an allocation takes: free list first, LIFO, the fill mark only when the list is empty; how a chain is linked; in which order the slots of a removed chain "
          "enter the free list). (c14) histories from six generators in turn (mixed hash/btree columns; counted columns; index growth with 66-90 keys sharing an index page; btree columns grown to 40-130 keys and thinned out; "
          "histories with drops at random pipeline states; value-size classes incl. multi-part chains), every third one interrupted at a random step by a process crash (directory copied while "
